@@ -130,7 +130,7 @@ def make_groups(chk, pid, rng, n_groups, thorough):
                      ('relabel-strings', geom.Conc(relabel=perm_relabel(rng, inst['nodes'], 'perm'), strlabels=True), 0, 0),
                      ('node-order', geom.Conc(order=list(reversed(range(len(inst['nodes']))))), 0, 0),
                      ('axis-swap', geom.Conc(swap=True), 4, 1)]
-            for k in ([-3, 4, 10] if not thorough else [-6, -3, -1, 1, 4, 10, 20]):
+            for k in ([-14, -3, 4, 10] if not thorough else [-18, -14, -6, -3, -1, 1, 4, 10, 20]):
                 concs.append((f'scale-2^{k}', geom.Conc(k=k), 2, 1))
             if not cf['W']:
                 concs.append(('translate', geom.Conc(off=(1024.0, -4096.0)), 4, 2))
